@@ -1,6 +1,7 @@
 package rules
 
 import (
+	"strconv"
 	"fmt"
 	"regexp"
 	"sort"
@@ -202,14 +203,16 @@ func checkC12(c *core.Ctx, l *core.Ledger) {
 	if dr != nil && rr != nil {
 		a1, _ := classifyArms(dr, 1)
 		a2, _ := classifyArms(rr, 0)
-		for i, w := range wantArms {
-			key := fmt.Sprintf("arm%d", i+1)
-			l.Check(contains(a1, w), "CLASSIFY", "DecodeRequest."+key, c.Rel(dr.Pos()), "arm present: "+w, "random-access request decoder lacks the arm ["+w+"]; has "+strings.Join(a1, " || "))
-			l.Check(contains(a2, w), "CLASSIFY", "ReadRequest."+key, c.Rel(rr.Pos()), "arm present: "+w, "streaming request decoder lacks the arm ["+w+"]; has "+strings.Join(a2, " || "))
-		}
-		l.Check(len(a1) == len(wantArms), "CLASSIFY", "DecodeRequest.no-extra", c.Rel(dr.Pos()), "no other success arm", "unexpected extra success arm(s): "+strings.Join(a1, " || "))
-		l.Check(len(a2) == len(wantArms), "CLASSIFY", "ReadRequest.no-extra", c.Rel(rr.Pos()), "no other success arm", "unexpected extra success arm(s): "+strings.Join(a2, " || "))
-		l.Check(strings.Join(a1, "\n") == strings.Join(a2, "\n"), "CLASSIFY", "siblings-agree", "", "both request decoders have identical (framing test => responder) arms", "the two request decoders classify differently:\n  DecodeRequest: "+strings.Join(a1, " || ")+"\n  ReadRequest: "+strings.Join(a2, " || "))
+		// semantic comparison: evaluate every arm's conditions for all (first byte, bytes available)
+		wantT, _ := armTable(wantArms)
+		t1, u1 := armTable(a1)
+		t2, u2 := armTable(a2)
+		d1 := compareArmTables(t1, wantT)
+		d2 := compareArmTables(t2, wantT)
+		l.Check(len(d1) == 0 && len(u1) == 0, "CLASSIFY", "DecodeRequest.table", c.Rel(dr.Pos()), "for all 256 first bytes x {0,1,2} available bytes the random-access decoder selects: fewer than 2 bytes => bare; 0x00 => legacy envelope (type checked, name/seqid echoed); high bit => strict envelope (same); otherwise bare", "random-access request decoder classifies differently from the protocol: "+strings.Join(append(d1, u1...), "; "))
+		l.Check(len(d2) == 0 && len(u2) == 0, "CLASSIFY", "ReadRequest.table", c.Rel(rr.Pos()), "same table for the streaming decoder", "streaming request decoder classifies differently from the protocol: "+strings.Join(append(d2, u2...), "; "))
+		ds := compareArmTables(t1, t2)
+		l.Check(len(ds) == 0, "CLASSIFY", "siblings-agree", "", "both request decoders select the same responder for every (first byte, bytes available)", "the two request decoders classify differently: "+strings.Join(ds, "; "))
 	}
 	if f := fn("Protocol.readEnvelopeHeader"); f != nil {
 		tr, _ := core.TraceSeqsInline(f, func(call ssa.CallInstruction) bool { return true }, c12Inline)
@@ -236,7 +239,7 @@ func checkC12(c *core.Ctx, l *core.Ledger) {
 		}
 		l.Check(ok, "CLASSIFY", "ReadRequest.body-order", c.Rel(rr.Pos()), "header, then body.Decode, then ReadEnvelopeEnd on every enveloped arm; bare arms decode the body directly", "an arm of ReadRequest does not decode the body between envelope begin and end")
 	}
-	l.Floor("CLASSIFY", 12)
+	l.Floor("CLASSIFY", 5)
 
 	// 3. ECHO
 	echo := []struct{ name string; must, mustNot []string }{
@@ -630,4 +633,190 @@ func escapesToResult(v ssa.Value) bool {
 		return false
 	}
 	return walk(v)
+}
+
+// ---- semantic comparison of classification arms ---------------------------------
+//
+// An arm is "conditions => responder". The conditions of the request decoders
+// only speak about the first byte B of the message and the number N of bytes
+// that could be read. Instead of comparing condition texts, every arm's
+// conditions are evaluated for all 256 x {0,1,2} combinations; two decoders
+// classify alike iff every combination selects the same set of outcomes. How
+// the tests are written (`b&0x80 > 0` or `!= 0`, nested or merged) is
+// irrelevant.
+
+type condExpr struct {
+	op   string // "", "!", "==", "!=", "<", "<=", ">", ">=", "&"
+	l, r *condExpr
+	atom string // "B", "N", or an integer literal
+}
+
+func parseCond(s string) (*condExpr, bool) {
+	s = strings.TrimSpace(s)
+	if strings.HasPrefix(s, "!") {
+		e, ok := parseCond(s[1:])
+		if !ok {
+			return nil, false
+		}
+		return &condExpr{op: "!", l: e}, true
+	}
+	if strings.HasPrefix(s, "(") && strings.HasSuffix(s, ")") {
+		// find the top-level operator
+		inner := s[1 : len(s)-1]
+		depth := 0
+		for i := 0; i < len(inner); i++ {
+			switch inner[i] {
+			case '(', '[':
+				depth++
+			case ')', ']':
+				depth--
+			}
+			if depth != 0 {
+				continue
+			}
+			for _, op := range []string{"==", "!=", "<=", ">=", "<", ">", "&"} {
+				if strings.HasPrefix(inner[i:], op) && i > 0 {
+					// make sure the parenthesised prefix is balanced and this is the outermost operator
+					l, ok1 := parseCond(inner[:i])
+					r, ok2 := parseCond(inner[i+len(op):])
+					if ok1 && ok2 {
+						return &condExpr{op: op, l: l, r: r}, true
+					}
+				}
+			}
+		}
+		return nil, false
+	}
+	switch {
+	case s == "N":
+		return &condExpr{atom: "N"}, true
+	case s == "alloc:buf[c:0]":
+		return &condExpr{atom: "B"}, true
+	case strings.HasPrefix(s, "c:"):
+		if _, err := strconv.ParseInt(s[2:], 10, 64); err == nil {
+			return &condExpr{atom: s[2:]}, true
+		}
+	}
+	return nil, false
+}
+
+func (e *condExpr) eval(b, n int64) int64 {
+	bi := func(v bool) int64 {
+		if v {
+			return 1
+		}
+		return 0
+	}
+	switch e.op {
+	case "":
+		switch e.atom {
+		case "B":
+			return b
+		case "N":
+			return n
+		}
+		v, _ := strconv.ParseInt(e.atom, 10, 64)
+		return v
+	case "!":
+		return bi(e.l.eval(b, n) == 0)
+	}
+	x, y := e.l.eval(b, n), e.r.eval(b, n)
+	switch e.op {
+	case "==":
+		return bi(x == y)
+	case "!=":
+		return bi(x != y)
+	case "<":
+		return bi(x < y)
+	case "<=":
+		return bi(x <= y)
+	case ">":
+		return bi(x > y)
+	case ">=":
+		return bi(x >= y)
+	case "&":
+		return x & y
+	}
+	return 0
+}
+
+// armTable evaluates arms ("c1 & c2 & ... => outcome") for every (B, N) and
+// returns, per combination, the sorted set of outcomes; unparsed lists the
+// conditions that could not be interpreted (they make the result undecided).
+func armTable(arms []string) (map[[2]int64]string, []string) {
+	type parsed struct {
+		conds   []*condExpr
+		outcome string
+	}
+	var ps []parsed
+	var unparsed []string
+	for _, a := range arms {
+		i := strings.Index(a, " => ")
+		if i < 0 {
+			continue
+		}
+		p := parsed{outcome: a[i+4:]}
+		lhs := a[:i]
+		typeChecked := false
+		if strings.HasSuffix(lhs, " & type==et") || lhs == "type==et" {
+			typeChecked = true
+			lhs = strings.TrimSuffix(strings.TrimSuffix(lhs, "type==et"), " & ")
+		}
+		if typeChecked {
+			p.outcome = "type==et => " + p.outcome
+		}
+		if strings.TrimSpace(lhs) != "" {
+			for _, cs := range strings.Split(lhs, " & ") {
+				e, ok := parseCond(cs)
+				if !ok {
+					unparsed = append(unparsed, cs)
+					continue
+				}
+				p.conds = append(p.conds, e)
+			}
+		}
+		ps = append(ps, p)
+	}
+	out := map[[2]int64]string{}
+	for n := int64(0); n <= 2; n++ {
+		for b := int64(0); b < 256; b++ {
+			set := map[string]bool{}
+			for _, p := range ps {
+				ok := true
+				for _, e := range p.conds {
+					if e.eval(b, n) == 0 {
+						ok = false
+						break
+					}
+				}
+				if ok {
+					set[p.outcome] = true
+				}
+			}
+			var os []string
+			for o := range set {
+				os = append(os, o)
+			}
+			sort.Strings(os)
+			out[[2]int64{b, n}] = strings.Join(os, " || ")
+		}
+	}
+	return out, unparsed
+}
+
+// compareArmTables reports the first combinations on which two classifications differ.
+func compareArmTables(a, b map[[2]int64]string) []string {
+	var diffs []string
+	for n := int64(0); n <= 2; n++ {
+		for by := int64(0); by < 256; by++ {
+			k := [2]int64{by, n}
+			if a[k] != b[k] {
+				diffs = append(diffs, fmt.Sprintf("first byte 0x%02x with %d byte(s) available: {%s} vs {%s}", by, n, a[k], b[k]))
+				if len(diffs) >= 3 {
+					return diffs
+				}
+			}
+		}
+	}
+	return diffs
 }
